@@ -132,8 +132,15 @@ def cmd_check(args):
             json.dump(rep, fh, indent=1)
         suffix = '' if rep['input'] is not None else ' no-failing-input-found'
         lines.append('VIOLATION property=%s replay=%s%s' % (prop, path, suffix))
+    shown = []
     for u in undecided:
-        lines.append('UNDECIDED property=%s reason=%s' % (prop, one_line(u, 300)))
+        u1 = one_line(u, 300)
+        if u1 not in shown:
+            shown.append(u1)
+    for u1 in shown[:6]:
+        lines.append('UNDECIDED property=%s reason=%s' % (prop, u1))
+    if len(shown) > 6:
+        lines.append('UNDECIDED property=%s reason=... and %d more reasons (see evidence)' % (prop, len(shown) - 6))
     wall = time.time() - t0
     samples = []
     for o in obligations[:]:
